@@ -319,6 +319,10 @@ def prop_C13(repo, tier):
         res.add('MSG-READONLY', f'{cname}.merge', 'effects on message-owned nodes', True)
         res.add('NO-RO-CAPTURE', f'{cname}.merge', 'attribute stores into the message object', True)
     add_findings(res, results, {'NO-SHARE', 'MSG-READONLY', 'NO-RO-CAPTURE'})
+    res.rules['NO-HIDDEN-STATE'] = 'no merge stores attributes on the running-order object or on the message object: what a merge does is a function of the two documents only'
+    for cname in results:
+        res.add('NO-HIDDEN-STATE', f'{cname}.merge', 'attribute stores on MOS objects during the merge', True)
+    add_findings(res, results, {'NO-HIDDEN-STATE'})
     from . import rules_shape
     rules_shape.fresh_read(res, program(repo))
     rules_shape.no_shared_memo(res, program(repo))
@@ -713,6 +717,9 @@ def prop_C07(repo, tier):
             res.add('NEVER-COMPLETED', f'{cname}.merge', 'RunningOrder.completed after the merge', ok,
                     '' if ok else f'completed evaluates to {[o.get("completed_after") for o in absent_ret]}')
     add_findings(res, {c: r for c, r in results.items() if c == 'RunningOrderEnd'}, {'FRAME'}, as_rule=lambda f: 'END-FRAME')
+    res.rules['NO-HIDDEN-STATE'] = 'no merge records its effect on the Python objects instead of the document (it would not survive a round trip)'
+    res.add('NO-HIDDEN-STATE', 'merges', 'attribute stores on MOS objects during a merge', True)
+    add_findings(res, results, {'NO-HIDDEN-STATE'})
     for r in null_one(res, repo, 'classify'):
         entry = 'MosFile.' + r['name']
         bad = [x for x in r['reads'].get(entry, []) if x[2] != 'direct']
@@ -721,6 +728,21 @@ def prop_C07(repo, tier):
     rules_shape.no_shared_memo(res, prog)
     if marker:
         rules_shape.marker_writers(res, prog, marker)
+        # survives a round trip: the answer of .completed must come from the document a fresh object is built over
+        from . import rules_null as _rn
+        res.rules['COMPLETED-FROM-DOCUMENT'] = ('RunningOrder.completed and MosCollection.completed, evaluated on objects freshly constructed over a document, are True '
+                                                'exactly when that document carries the completion marker (no state kept on objects, no inference from the reader list)')
+        try:
+            cfd = _rn.completed_from_document(prog, marker)
+            for present, (vals, cvals) in cfd.items():
+                want = [repr(present)]
+                res.add('COMPLETED-FROM-DOCUMENT', 'RunningOrder.completed', f'fresh object, marker {"present" if present else "absent"}', vals == want,
+                        '' if vals == want else f'completed evaluates to {vals} on a running order just read from a document {"with" if present else "without"} the marker')
+                if cvals:
+                    res.add('COMPLETED-FROM-DOCUMENT', 'MosCollection.completed', f'collection over a running order whose document has the marker {"present" if present else "absent"}',
+                            cvals == want, '' if cvals == want else f'the collection reports completed={cvals} while its running order document {"has" if present else "does not have"} the marker')
+        except _rn.AnalysisError as e:
+            res.error(f'COMPLETED-FROM-DOCUMENT: {e}')
     rules_shape.detect_completed(res, prog)
     stale_cache(res, repo, merges=True, jobs=('accessors',), funcs=lambda f: f.endswith('.completed') or f.endswith('.xml'))
     res.floors = {'GUARD-DOM': 20, 'NEVER-COMPLETED': 19, 'MARKER-AGREE': 1, 'END-FRAME': 1, 'NO-BYPASS': 1}
@@ -762,6 +784,24 @@ def prop_C14(repo, tier):
     add_findings(res, results, {'FRAME', 'IDX-DOMAIN', 'IDX-FRESH'}, want=lambda c, f: schema.ROLES[c][0] in ('ROREPLACE', 'END'),
                  as_rule=lambda f: 'ROOT-WRITERS')
     add_findings(res, results, {'FRAME'}, want=lambda c, f: 'ro.xml)' in f['detail'] or "parent=ro.xml" in f['detail'], as_rule=lambda f: 'ENVELOPE-UNTOUCHED')
+    res.rules['NO-HIDDEN-STATE'] = 'no merge records its effect on the Python objects instead of the document (it would not be in the serialisation)'
+    res.add('NO-HIDDEN-STATE', 'merges', 'attribute stores on MOS objects during a merge', True)
+    add_findings(res, collect_merge(res, repo), {'NO-HIDDEN-STATE'})
+    guard_ = sorted({t for r in collect_merge(res, repo).values() for t in r.get('guard_tags', [])})
+    if len(guard_) == 1:
+        from . import rules_null as _rn
+        res.rules['COMPLETED-FROM-DOCUMENT'] = ('RunningOrder.completed / MosCollection.completed evaluated on objects freshly constructed over a document are True exactly '
+                                                'when that document carries the completion marker: the flag survives serialisation')
+        try:
+            for present, (vals, cvals) in _rn.completed_from_document(prog, guard_[0]).items():
+                want = [repr(present)]
+                res.add('COMPLETED-FROM-DOCUMENT', 'RunningOrder.completed', f'fresh object, marker {"present" if present else "absent"}', vals == want,
+                        '' if vals == want else f'completed evaluates to {vals} on a running order just read from a document {"with" if present else "without"} the marker')
+                if cvals:
+                    res.add('COMPLETED-FROM-DOCUMENT', 'MosCollection.completed', f'collection, marker {"present" if present else "absent"}', cvals == want,
+                            '' if cvals == want else f'the collection reports completed={cvals}')
+        except _rn.AnalysisError as e:
+            res.error(f'COMPLETED-FROM-DOCUMENT: {e}')
     rules_shape.serializer(res, prog)
     rules_shape.no_shared_memo(res, prog)
     stale_cache(res, repo, merges=True, jobs=('accessors',), funcs=lambda f: f.split('.')[0] in ('MosFile', 'RunningOrder'))
